@@ -16,7 +16,6 @@ from __future__ import annotations
 
 import asyncio
 import random
-import sys
 import warnings
 from collections import deque
 
@@ -1161,7 +1160,7 @@ def witness_of(w: World, ops, cspec, variant) -> dict:
     }
 
 
-def record_world(rec, w: World, key, stats_prefix="") -> None:
+def record_world(rec, w: World, key) -> None:
     nontrivial = w.n_prod_exec > 0 and w.n_consumer > 0
     rec.case(key, nontrivial)
     m = w.model
@@ -1377,7 +1376,7 @@ def _sizes(rng, L):
     return rng.randint(1, 5 * L)
 
 
-def run_random(rng, limit, rec, stats, want_icontract=False):
+def run_random(rng, limit, rec, stats):
     gated = rng.random() < 0.5
     chunked = rng.random() < 0.55
     p_settle = rng.choice((0.25, 0.6, 1.0))
